@@ -1,0 +1,50 @@
+//go:build verif
+
+package health
+
+// Machine-checked contracts for /verif (govc). Comment-only, compiled only
+// with -tags verif; changes no behaviour.
+//
+// C24: (1) the token cache only ever holds the SHA-256 of a token that bcrypt
+// verified (lock invariant, proved at every release of tokenCacheMu), so
+// validateToken returns true only for the valid token; (2) the middleware
+// closure runs the wrapped handler only for an exempt path or a non-empty
+// valid token; (3) the exempt set is exactly the five documented paths and
+// is never modified; (4) NewServer installs the middleware whenever a token
+// hash is configured and binds every route of a disabled group to a handler
+// that only answers 404.
+
+//@ guarded Server.tokenCacheMu: tokenCacheValid, cachedTokenSHA
+//@ lockinv Server.tokenCacheMu(srv): srv.tokenCacheValid ==> shaVerified(srv.cfg.TokenHash, arrstr(srv.cachedTokenSHA, 32))
+
+//@ mapinit[C24] authExemptPaths = "/health", "/healthz", "/ready", "/", "/logo.png"
+//@ callsonly[C24] disabledHandler$1: net/http.NotFound
+
+//@ func (*Server).validateToken
+//@ prop C24
+//@ check lockset bounds
+//@ ensures result ==> bcryptOK(s.cfg.TokenHash, token)
+
+//@ func (*Server).requireAuth$1
+//@ prop C24
+//@ after call validateToken let validated = $ret
+//@ after call extractBearerToken let tok = $ret
+//@ at call ServeHTTP assert old(has(authExemptPaths, r.URL.Path) && authExemptPaths[r.URL.Path]) || (tok != "" && validated)
+
+//@ func (*Server).requireAuth
+//@ prop C24
+//@ ensures isfunc(ifaceval(result), "(*Server).requireAuth$1")
+
+//@ func disabledHandler
+//@ prop C24
+//@ ensures isfunc(result, "disabledHandler$1")
+
+//@ func NewServer
+//@ prop C24
+//@ at call HandleFunc assert ($1 == "/agents" || $1 == "/agents/" || $1 == "/routes/advertise" || $1 == "/routes/manage" || $1 == "/forward/manage" || $1 == "/display-name/manage" || $1 == "/sleep" || $1 == "/sleep/status" || $1 == "/wake") ==> cfg.EnableRemoteAPI || isfunc($2, "disabledHandler$1")
+//@ at call HandleFunc assert ($1 == "/api/topology" || $1 == "/api/dashboard" || $1 == "/api/nodes" || $1 == "/api/mesh-test" || $1 == "/api/") ==> cfg.EnableDashboard || isfunc($2, "disabledHandler$1")
+//@ at call HandleFunc assert ($1 == "/debug/pprof/" || $1 == "/debug/pprof/cmdline" || $1 == "/debug/pprof/profile" || $1 == "/debug/pprof/symbol" || $1 == "/debug/pprof/trace" || $1 == "/debug/") ==> cfg.EnablePprof || isfunc($2, "disabledHandler$1")
+//@ at call HandleFunc assert $1 == "/agents" || $1 == "/agents/" || $1 == "/routes/advertise" || $1 == "/routes/manage" || $1 == "/forward/manage" || $1 == "/display-name/manage" || $1 == "/sleep" || $1 == "/sleep/status" || $1 == "/wake" || $1 == "/api/topology" || $1 == "/api/dashboard" || $1 == "/api/nodes" || $1 == "/api/mesh-test" || $1 == "/api/" || $1 == "/debug/pprof/" || $1 == "/debug/pprof/cmdline" || $1 == "/debug/pprof/profile" || $1 == "/debug/pprof/symbol" || $1 == "/debug/pprof/trace" || $1 == "/debug/" || $1 == "/health" || $1 == "/healthz" || $1 == "/ready" || $1 == "/logo.png" || $1 == "/"
+//@ ensures cfg.TokenHash != "" ==> isfunc(ifaceval(result.server.Handler), "(*Server).requireAuth$1")
+
+//@ census[C24] (*Server).requireAuth in NewServer
